@@ -19,6 +19,13 @@
  *     X<cpu> emit OHx | e emit OHe | M<type>:<value> ovni_mark_set | T<type>:<title> ovni_mark_type |
  *     F flush | AD<key>=<double> AS<key>=<str> AB<key>=<0|1> AJ<key>=<json> attr set | G attr_flush |
  *     Z thread_free | N bare ovni_clock_now | B second barrier | Y yield | S<n> spin | U<us> usleep
+ *     lockstep <seed>       serialised mode: exactly one thread runs at a time and the others wait; the
+ *                           running thread may be switched (pseudo-randomly, from <seed>) at every libc call
+ *                           the library makes that this executable interposes (strtol, strtod, snprintf,
+ *                           open, fopen, fclose, write, mkdir) and between ops.  This makes windows of a few
+ *                           instructions between two libc calls of one library function (hidden libc
+ *                           state such as strtok's cursor, a static buffer filled by snprintf and used by
+ *                           the next open) as wide as a whole run of the other threads, deterministically.
  * output: one line per thread  "t <idx> done=<ops completed> died=<op index|-1> retries=<n> why=<die() format>"
  *         then "main init=<ok|refused|none> fini=<ok|refused|none>"
  */
@@ -34,6 +41,10 @@
 #include <string.h>
 #include <time.h>
 #include <unistd.h>
+#include <dlfcn.h>
+#include <fcntl.h>
+#include <sys/stat.h>
+#include <sys/types.h>
 #include "ovni.h"
 
 #define MAXT 16
@@ -65,15 +76,57 @@ static int nsecond;
 
 /* spinning barrier: the waiters leave within nanoseconds of each other, which a futex wake-up
  * does not give; yields when the machine is oversubscribed */
+static void ls_yield_fwd(void);
 static void spin_barrier(atomic_int *cnt, int n)
 {
 	long spins = 0;
 	atomic_fetch_add(cnt, 1);
-	while (atomic_load(cnt) < n)
+	while (atomic_load(cnt) < n) {
+		ls_yield_fwd();
 		if (++spins % 20000 == 0)
 			sched_yield();
+	}
 }
 static _Thread_local struct thr *self;
+
+/* ---- lockstep mode ---- */
+static int lockstep;
+static unsigned long long ls_rng;
+static atomic_int ls_turn = -1;          /* slot (index in T) of the thread that may run */
+static atomic_int ls_alive[MAXT];
+static _Thread_local int ls_in;          /* re-entrancy guard: the scheduler itself calls libc */
+
+static unsigned long long ls_next(void)
+{
+	ls_rng ^= ls_rng << 13; ls_rng ^= ls_rng >> 7; ls_rng ^= ls_rng << 17;
+	return ls_rng;
+}
+
+/* called by the thread that holds the turn: hand it to some live thread (maybe itself) */
+static void ls_pass(int me, int can_keep)
+{
+	int live[MAXT], n = 0;
+	for (int i = 0; i < nthreads; i++)
+		if (atomic_load(&ls_alive[i]) && (can_keep || i != me))
+			live[n++] = i;
+	if (n == 0) { atomic_store(&ls_turn, -2); return; }
+	int nxt = live[ls_next() % (unsigned) n];
+	if (can_keep && ls_next() % 3 != 0)       /* mostly keep running: long stretches with a few switches */
+		nxt = me;
+	atomic_store(&ls_turn, nxt);
+}
+
+static void ls_wait(int me)
+{
+	long spins = 0;
+	while (atomic_load(&ls_turn) != me)
+		if (++spins > 200)
+			sched_yield();
+}
+
+/* a scheduling point of the running thread */
+static void ls_yield(void);
+
 static jmp_buf main_jb;
 static int main_armed;
 
@@ -108,6 +161,91 @@ void abort(void)
 		longjmp(main_jb, 1);
 	_exit(134);
 }
+
+static void ls_yield(void)
+{
+	struct thr *t = self;
+	if (!lockstep || !t || ls_in)
+		return;
+	ls_in = 1;
+	int me = (int) (t - T);
+	ls_pass(me, 1);
+	ls_wait(me);
+	ls_in = 0;
+}
+static void ls_yield_fwd(void) { ls_yield(); }
+
+/* ---- libc calls of the library that are scheduling points in lockstep mode ----
+ * (left out of the ThreadSanitizer build, which has its own interceptors for them) */
+#ifndef RTCONC_NO_LOCKSTEP
+#define REAL(name) static __typeof__(name) *real; if (!real) real = (__typeof__(name) *) dlsym(RTLD_NEXT, #name)
+
+long strtol(const char *s, char **end, int base)
+{
+	REAL(strtol);
+	ls_yield();
+	return real(s, end, base);
+}
+
+double strtod(const char *s, char **end)
+{
+	REAL(strtod);
+	ls_yield();
+	return real(s, end);
+}
+
+int snprintf(char *buf, size_t n, const char *fmt, ...)
+{
+	va_list ap;
+	va_start(ap, fmt);
+	int r = vsnprintf(buf, n, fmt, ap);
+	va_end(ap);
+	ls_yield();     /* after the buffer is filled, before it is used */
+	return r;
+}
+
+int open(const char *path, int flags, ...)
+{
+	REAL(open);
+	mode_t mode = 0;
+	if (flags & O_CREAT) {
+		va_list ap;
+		va_start(ap, flags);
+		mode = (mode_t) va_arg(ap, int);
+		va_end(ap);
+	}
+	ls_yield();
+	return real(path, flags, mode);
+}
+
+FILE *fopen(const char *path, const char *mode)
+{
+	REAL(fopen);
+	ls_yield();
+	return real(path, mode);
+}
+
+int fclose(FILE *f)
+{
+	REAL(fclose);
+	ls_yield();
+	return real(f);
+}
+
+ssize_t write(int fd, const void *buf, size_t n)
+{
+	REAL(write);
+	ls_yield();
+	return real(fd, buf, n);
+}
+
+int mkdir(const char *path, mode_t mode)
+{
+	REAL(mkdir);
+	ls_yield();
+	return real(path, mode);
+}
+#endif /* RTCONC_NO_LOCKSTEP */
 
 static _Thread_local volatile unsigned long sink;
 
@@ -148,6 +286,8 @@ static void run_op(struct thr *t, char *op)
 		clock_gettime(CLOCK_MONOTONIC, &t0);
 		t->retrying = 1;
 		if (setjmp(t->retry) != 0) {
+			ls_in = 0;
+			ls_yield();
 			clock_gettime(CLOCK_MONOTONIC, &t1);
 			if (t1.tv_sec - t0.tv_sec >= 3) {
 				t->retrying = 0;
@@ -199,17 +339,27 @@ static void *body(void *arg)
 	struct thr *t = arg;
 	self = t;
 	pthread_barrier_wait(&start);
-	spin_barrier(&start_cnt, nthreads);
+	if (lockstep)
+		ls_wait((int) (t - T));
+	else
+		spin_barrier(&start_cnt, nthreads);
 	if (setjmp(t->top) == 0) {
 		for (t->pc = 0; t->pc < t->nops; t->pc++) {
 			run_op(t, t->ops[t->pc]);
 			t->done++;
+			ls_yield();
 		}
 	} else {
+		ls_in = 0;
 		/* refused inside op t->died: a thread blocked nobody may wait for */
 		for (int k = t->died + 1; k < t->nops; k++)
 			if (t->ops[k][0] == 'B')
 				spin_barrier(&second_cnt, nsecond);
+	}
+	if (lockstep) {
+		ls_in = 1;
+		atomic_store(&ls_alive[t - T], 0);
+		ls_pass((int) (t - T), 0);
 	}
 	self = NULL;
 	return NULL;
@@ -232,6 +382,10 @@ int main(int argc, char **argv)
 		} else if (!strcmp(w, "main_init")) main_init = atoi(strtok_r(NULL, " \n", &save));
 		else if (!strcmp(w, "main_fini")) main_fini = atoi(strtok_r(NULL, " \n", &save));
 		else if (!strcmp(w, "drop")) drop = atoi(strtok_r(NULL, " \n", &save));
+		else if (!strcmp(w, "lockstep")) {
+			lockstep = 1;
+			ls_rng = strtoull(strtok_r(NULL, " \n", &save), NULL, 10) * 0x9E3779B97F4A7C15ULL + 0x1234567ULL;
+		}
 		else if (!strcmp(w, "thread")) {
 			if (nthreads >= MAXT) return 2;
 			struct thr *t = &T[nthreads++];
@@ -260,6 +414,11 @@ int main(int argc, char **argv)
 		main_armed = 0;
 	}
 	pthread_barrier_init(&start, NULL, (unsigned) nthreads);
+	if (lockstep && nthreads > 0) {
+		for (int i = 0; i < nthreads; i++)
+			atomic_store(&ls_alive[i], 1);
+		atomic_store(&ls_turn, (int) (ls_next() % (unsigned) nthreads));
+	}
 	for (int i = 0; i < nthreads; i++)
 		if (pthread_create(&T[i].th, NULL, body, &T[i]) != 0) { perror("pthread_create"); return 2; }
 	for (int i = 0; i < nthreads; i++)
